@@ -50,6 +50,16 @@ def one(patch, base):
             new = [r for k, r in d.items() if k not in base[pid]]
             if new:
                 caught[pid] = sorted({"%s %s" % (r.rule, r.key) for r in new})[:5]
+        if not caught:
+            # nothing under the default features: analyse the `unstable` configuration too
+            subprocess.run("cp -al %s %s" % (os.path.join(factbase.CACHE, "target-unstable"), os.path.join(tmp, "target-u")), shell=True)
+            out_u = os.path.join(tmp, "facts-u.json")
+            ok, log = factbase.generate(tmp, "unstable", out_u, os.path.join(tmp, "target-u"))
+            if ok:
+                for pid, d in run_all(out_u, tmp).items():
+                    new = [r for k, r in d.items() if k not in base[pid]]
+                    if new:
+                        caught[pid] = sorted({"%s %s [unstable]" % (r.rule, r.key) for r in new})[:5]
         return {"status": "ran", "caught": caught}
     finally:
         shutil.rmtree(tmp, ignore_errors=True)
@@ -57,7 +67,12 @@ def one(patch, base):
 
 def main():
     items = []
-    for a in sys.argv[1:]:
+    outp = os.path.join(VERIF, "seeded", "MATRIX.json")
+    args = sys.argv[1:]
+    if "--out" in args:
+        outp = args[args.index("--out") + 1]
+        del args[args.index("--out"):args.index("--out") + 2]
+    for a in args:
         if os.path.isdir(a):
             for d in sorted(glob.glob(os.path.join(a, "*", "patch.diff"))):
                 items.append((os.path.basename(os.path.dirname(d)), d))
@@ -73,8 +88,7 @@ def main():
                 print("%-28s %s" % (name, ", ".join("%s[%s]" % (p, v[0].split(" ")[0]) for p, v in sorted(r["caught"].items())) or "MISSED"))
             else:
                 print("%-28s %s %s" % (name, r["status"], r.get("why", "")[:100]))
-    os.makedirs(os.path.join(VERIF, "seeded"), exist_ok=True)
-    json.dump(rows, open(os.path.join(VERIF, "seeded", "MATRIX.json"), "w"), indent=1, default=list)
+    json.dump(rows, open(outp, "w"), indent=1, default=list)
 
 
 if __name__ == "__main__":
